@@ -21,16 +21,8 @@ def _clock_selftest(chk):
         raise core.InfraError(f'clock self-test failed: {ct.get("problems")}')
 
 
-def run(chk):
-    chk.audit(PROPS)
-    _clock_selftest(chk)
-    n = 10000 if chk.tier == "quick" else 150000
-    results = core.e1_flow(chk, 'scen_eager', 'eager', {'C19'},
-                           lambda rng: scen_eager.gen_case(rng, chk.tier), n, keyfn=keyfn,
-                           corpus=CORPUS, escalate_n=1500)
-    # distribution actually produced
-    dist = dict(bias={}, bs={}, wait={}, end_marker={}, lazy_time=0, deadline_ties_item_taken=0, deadline_ties_item_missed=0,
-                taken_past_deadline=0, short_by_timeout=0, short_by_marker=0, full=0, never_ended=0, holds=0)
+def _distribution(dist, results):
+    """what the generator and the schedules actually produced (goes into the evidence file)"""
     for case, res in results:
         for k, v in (('bias', case.get('bias')), ('bs', case['bs']), ('wait', case['wait']),
                      ('end_marker', repr(case['end']))):
@@ -69,6 +61,23 @@ def run(chk):
                     dist['short_by_marker'] += 1
                 else:
                     dist['short_by_timeout'] += 1
+
+
+def run(chk):
+    chk.audit(PROPS)
+    _clock_selftest(chk)
+    dist = dict(bias={}, bs={}, wait={}, end_marker={}, lazy_time=0, deadline_ties_item_taken=0, deadline_ties_item_missed=0,
+                taken_past_deadline=0, short_by_timeout=0, short_by_marker=0, full=0, never_ended=0, holds=0)
+    # thorough: several rounds so that the results of one round can be dropped before the next
+    rounds = [10000] if chk.tier == 'quick' else [40000] * 8
+    for k, n in enumerate(rounds):
+        results = core.e1_flow(chk, 'scen_eager', 'eager', {'C19'},
+                               lambda rng: scen_eager.gen_case(rng, chk.tier), n, keyfn=keyfn,
+                               corpus=CORPUS if k == 0 else None, escalate_n=1500)
+        _distribution(dist, results)
+        del results
+        if chk.violations or chk.corr_breaks:
+            break
     chk.cov['distribution'] = dist
     chk.cov['rule'] = ('cases = random (batch_size, batch_wait_time incl. 0 and the constructor default, end marker '
                        'None/int/float/bool/str, arrival script with times in dyadic units incl. bursts, arrivals at the '
